@@ -39,8 +39,9 @@ ConfUnmatched(i) ==
      \A k \in 1..Len(Os(i)) : IF St(i).big THEN BigLaws!Untouched(Os(i)[k]) ELSE Laws!Untouched(Os(i)[k])
 ConfDust(i) ==
   Judged(i) /\ St(i).matched /\ St(i).mode # "kfull" =>
-     IF St(i).big THEN LEq(BigLaws!QuotePaid(Os(i)), LAdd(BigLaws!QuoteRecv(Os(i)), St(i).diff))
-     ELSE Laws!QuotePaid(Os(i)) = Laws!QuoteRecv(Os(i)) + St(i).diff
+     IF St(i).big THEN (IF St(i).diffNeg THEN LEq(LAdd(BigLaws!QuotePaid(Os(i)), St(i).diff), BigLaws!QuoteRecv(Os(i)))
+                        ELSE LEq(BigLaws!QuotePaid(Os(i)), LAdd(BigLaws!QuoteRecv(Os(i)), St(i).diff)))
+     ELSE Laws!QuotePaid(Os(i)) = Laws!QuoteRecv(Os(i)) + (IF St(i).diffNeg THEN 0 - St(i).diff ELSE St(i).diff)
 (* single-price batches (no last price): an order filled once was filled at the match price *)
 ConfFill(i) ==
   Judged(i) /\ St(i).matched /\ ~St(i).hasLast /\ St(i).mode # "kfull" =>
